@@ -218,6 +218,7 @@ type kctx struct {
 	brk    func(c *kctx) string                // translation of `break` out of the enclosing switch
 	io     map[string]string                   // Go name → "writer" | "buffer"
 	ext    *kext                               // extension hooks of another generator (cmdsteps.go); nil for the C15 steps
+	ctxNm  string                              // the name of the *flags.Context parameter ("" = `ctx`, the C15 steps)
 }
 
 // kext: expression / call / assignment forms another generator adds to the translator; each hook is asked first and
@@ -229,7 +230,7 @@ type kext struct {
 }
 
 func (c *kctx) clone() *kctx {
-	n := &kctx{f: c.f, vars: map[string]kv{}, seq: map[string]int{}, local: map[string]bool{}, inLoop: c.inLoop, ret: c.ret, retK: c.retK, brk: c.brk, io: c.io, ext: c.ext}
+	n := &kctx{f: c.f, vars: map[string]kv{}, seq: map[string]int{}, local: map[string]bool{}, inLoop: c.inLoop, ret: c.ret, retK: c.retK, brk: c.brk, io: c.io, ext: c.ext, ctxNm: c.ctxNm}
 	for k, v := range c.vars {
 		n.vars[k] = v
 	}
